@@ -26,13 +26,16 @@ use gimli::{EndianSlice, RunTimeEndian, UnitOffset};
 use serde_json::{json, Value};
 use std::collections::BTreeMap;
 
+#[path = "c02_corpus.rs"]
+mod corpus;
+
 type Rd<'a> = EndianSlice<'a, RunTimeEndian>;
 
 pub fn info() -> PropInfo {
     PropInfo {
         id: "C02",
         level: "exploration",
-        rule: "Units are assembled by gen::info from a pre-order depth sequence (children flags, closing nulls, optional empty child lists, 0-3 trailing nulls) with per-node abbreviations. Systematic: every ordered forest with 1..6 nodes (196 shapes) x 9 DW_AT_sibling modes {none, right on every parent, right on a subset (also on childless entries), self, backward, inside own entry, beyond the unit, non-reference forms, wrong-forward on childless entries (secondary)} x trailing padding 0..3, rotating over the 64 encodings, unit kinds and 7 abbreviation code schemes {sequential, permuted, sparse, huge (2^32+5, 2^63, 2^64-1 ...), vec-then-map order, descending, random}; every header layout: {v2,v3,v4} x {compile unit, .debug_types type unit} and v5 x 6 unit types x 2 formats x 2 byte orders x 4 address sizes, also concatenated into multi-unit sections; abbreviation tables of 1..8 declarations per scheme with lookups of every declared and of absent codes, and every position pair (i,j) duplicated. Seeded random: forests up to 60 nodes, occasionally 3000 entries / 2000-deep chains / 5000 siblings, 1-4 units per section sharing or not sharing tables. Every entry offset is used as a start position (sampled to 48 starts for units above 400 items). A case is non-trivial when the unit has at least 2 items; distinct = digest of (.debug_abbrev, .debug_info, .debug_types).",
+        rule: "Units are assembled by gen::info from a pre-order depth sequence (children flags, closing nulls, optional empty child lists, 0-3 trailing nulls) with per-node abbreviations. Systematic: every ordered forest with 1..6 nodes (196 shapes) x 9 DW_AT_sibling modes {none, right on every parent, right on a subset (also on childless entries), self, backward, inside own entry, beyond the unit, non-reference forms, wrong-forward on childless entries (secondary)} x trailing padding 0..3, rotating over the 64 encodings, unit kinds and 7 abbreviation code schemes {sequential, permuted, sparse, huge (2^32+5, 2^63, 2^64-1 ...), vec-then-map order, descending, random}; every header layout: {v2,v3,v4} x {compile unit, .debug_types type unit} and v5 x 6 unit types x 2 formats x 2 byte orders x 4 address sizes, also concatenated into multi-unit sections; abbreviation tables of 1..8 declarations per scheme with lookups of every declared and of absent codes, and every position pair (i,j) duplicated. Seeded random: forests up to 60 nodes, occasionally 3000 entries / 2000-deep chains / 5000 siblings, 1-4 units per section sharing or not sharing tables. Every entry offset is used as a start position (sampled to 48 starts for units above 400 items). Corpus: two small C translation units are compiled and linked at check time (quick: gcc v4 with type units, gcc v5 -O2, clang v2; thorough: gcc/clang x DWARF 2-5 x -O0/-O2, type units, gcc DWARF64) and every unit's header and entry sequence (section offset, depth, tag, attribute names, nulls) is compared with llvm-dwarfdump. A case is non-trivial when the unit has at least 2 items; distinct = digest of (.debug_abbrev, .debug_info, .debug_types).",
         assumptions: &[
             "a unit may contain several top-level entries (a forest); depth bookkeeping follows DESIGN.md Appendix A.3 (a null is reported at the current depth, then the depth drops by one)",
             "DW_AT_sibling values that are not a unit reference greater than the entry's offset, lie inside the entry itself or beyond the unit must leave the reported forest unchanged; wrong forward values on childless entries are a secondary observation; wrong forward values on entries with children are not generated",
@@ -40,6 +43,7 @@ pub fn info() -> PropInfo {
             "offsets that are not entry starts are not required to fail; UnitHeader::entry at a null is a secondary observation",
             "the error variant for duplicate abbreviation codes is a secondary observation (rejection is judged)",
             "usize is 64 bits on this host",
+            "corpus: llvm-dwarfdump 14 is the oracle for compiler-built objects; depth is taken from its indentation (2 columns per level); tool failures are inconclusive",
         ],
         exhaustive_subspaces: &[
             "ordered forests with <= 6 nodes x sibling modes x trailing padding 0..3",
@@ -62,7 +66,7 @@ const MUST: &[&str] = &[
     "codes.Sequential", "codes.Permuted", "codes.Sparse", "codes.Huge", "codes.VecMap", "codes.Descending", "codes.Random",
     "abbrev.get.declared", "abbrev.get.absent", "abbrev.duplicate.rejected", "abbrev.unterminated",
     "padding.0", "padding.1", "padding.2", "padding.3", "shape.empty_child_list", "shape.multi_root", "shape.deep_chain", "shape.wide", "shape.large",
-    "bounds.checked", "header.from_offset",
+    "bounds.checked", "header.from_offset", "corpus.object", "corpus.unit", "corpus.entry", "corpus.type_unit",
 ];
 
 // ------------------------------------------------------------------ observation vocabulary
@@ -1703,4 +1707,5 @@ pub fn run(ctx: &mut Ctx) {
     random_forests(ctx);
     large(ctx);
     abbrevs(ctx);
+    corpus::run(ctx);
 }
